@@ -202,6 +202,17 @@ Section Replay.
     | e :: r => match step repaired s e with Some (s', _) => run repaired s' r | None => None end
     end.
 
+  (* the calls made to the allocator, in order *)
+  Fixpoint run_log (repaired : bool) (s : rstate) (evs : list event) : option (list obs) :=
+    match evs with
+    | [] => Some []
+    | e :: r =>
+        match step repaired s e with
+        | Some (s', o) => match run_log repaired s' r with Some l => Some (o :: l) | None => None end
+        | None => None
+        end
+    end.
+
   Definition replay_step := step true.
   Definition old_replay_step := step false.
   Definition replay (evs : list event) : option rstate := run true init evs.
